@@ -4,6 +4,8 @@ import AffVerif.Judge.C13
 import AffVerif.Judge.C02
 import AffVerif.Judge.C17
 import AffVerif.Judge.Hist
+import AffVerif.Judge.C10
+import AffVerif.Judge.C15
 /-! The judge: reads one case per line on stdin, prints one verdict per line. -/
 open AV AV.Judge
 
@@ -15,6 +17,8 @@ def judgeLine (line : String) : String :=
     match kind with
     | "C16" => judgeC16
     | "C12" => judgeC12
+    | "C10" => judgeC10
+    | "C15" => judgeC15
     | "HIST" => judgeHist
     | "C17" => judgeC17
     | "C02" => judgeC02
